@@ -48,6 +48,111 @@ class Frame:
     def __contains__(self, k):
         return k in self.cols
 
+    # ---- the part of the pandas interface that tidy-ups of the library code are likely to reach for (columns keep their order)
+    def __len__(self):
+        return self.n
+
+    def get(self, k, default=None):
+        return self.cols.get(k, default)
+
+    def keys(self):
+        return list(self.cols)
+
+    def __iter__(self):
+        return iter(list(self.cols))
+
+    @property
+    def columns(self):
+        return _Columns(list(self.cols))
+
+    @property
+    def shape(self):
+        return (self.n, len(self.cols))
+
+    def _sub(self, names):
+        f = Frame.__new__(type(self))
+        f.cols = {nm: list(self.cols[nm]) for nm in names}
+        f.n = self.n
+        return f
+
+    def _select(self, sel):
+        names = list(self.cols)
+        if isinstance(sel, slice):
+            return names[sel]
+        if isinstance(sel, str):
+            return [sel]
+        sel = list(sel)
+        if sel and all(isinstance(x, (bool, np.bool_)) for x in sel):
+            if len(sel) != len(names):
+                raise IndexError("Boolean index has wrong length: %d instead of %d" % (len(sel), len(names)))
+            return [nm for nm, keep in zip(names, sel) if keep]
+        for x in sel:
+            if x not in self.cols:
+                raise KeyError(x)
+        return sel
+
+    @property
+    def loc(self):
+        return _Loc(self, by_name=True)
+
+    @property
+    def iloc(self):
+        return _Loc(self, by_name=False)
+
+    def to_numpy(self, dtype=None, **k):
+        a = np.empty((self.n, len(self.cols)), dtype=object)
+        for j, nm in enumerate(self.cols):
+            for i in range(self.n):
+                a[i, j] = self.cols[nm][i]
+        return a
+
+    @property
+    def values(self):
+        return self.to_numpy()
+
+    def __array__(self, dtype=None, copy=None):
+        return self.to_numpy()
+
+    def drop(self, columns=None, **k):
+        cols = [columns] if isinstance(columns, str) else list(columns or [])
+        return self._sub([nm for nm in self.cols if nm not in cols])
+
+
+class _Columns(list):
+    def isin(self, values):
+        vs = list(values)
+        return np.array([nm in vs for nm in self], dtype=bool)
+
+    def tolist(self):
+        return list(self)
+
+    def get_loc(self, k):
+        return self.index(k)
+
+
+class _Loc:
+    def __init__(self, frame, by_name):
+        self.f, self.by_name = frame, by_name
+
+    def __getitem__(self, key):
+        rows, cols = key if isinstance(key, tuple) else (key, slice(None))
+        names = list(self.f.cols)
+        if self.by_name:
+            picked = self.f._select(cols)
+        elif isinstance(cols, slice):
+            picked = names[cols]
+        elif isinstance(cols, (int, np.integer)):
+            picked = [names[cols]]
+        else:
+            picked = [names[i] for i in cols]
+        sub = self.f._sub(picked)
+        if isinstance(rows, slice) and rows == slice(None):
+            return sub
+        idx = list(range(self.f.n))[rows] if isinstance(rows, slice) else [rows] if isinstance(rows, (int, np.integer)) else list(rows)
+        sub.cols = {nm: [v[i] for i in idx] for nm, v in sub.cols.items()}
+        sub.n = len(idx)
+        return sub
+
 
 class PandasShim:
     DataFrame = Frame
